@@ -958,6 +958,21 @@ func TestCorr(t *testing.T) {
 			doTransform(run, a, r, tc, "corpus")
 		}
 	}
+	// bin/check --replay FILE: a failing projection input is re-run first (histories are reproduced by
+	// the seed recorded in the replay file, which bin/check restores)
+	if rp := os.Getenv("VERIF_REPLAY"); rp != "" {
+		if b, err := os.ReadFile(rp); err == nil {
+			var obj struct {
+				Input struct {
+					Kind string `json:"kind"`
+					Case tcase  `json:"case"`
+				} `json:"input"`
+			}
+			if json.Unmarshal(b, &obj) == nil && obj.Input.Kind == "transform" && len(obj.Input.Case.Vals) > 0 {
+				doTransform(run, a, r, obj.Input.Case, "replay")
+			}
+		}
+	}
 	nHist := run.N / 5
 	nTr := run.N - nHist
 	for i := 0; i < nTr; i++ {
